@@ -6,7 +6,7 @@ import vlib
 BLK = 4096
 NBLK = 4
 SIZE = BLK * NBLK
-META_FILES = ["Model", "Corr", "Proofs"]
+META_FILES = ["Model", "Corr", "Proofs", "Fault"]
 
 # ------------------------------------------------------------------------------------------------ Coq build
 
